@@ -22,6 +22,14 @@ def run(workdir, goenv, log):
     if p.returncode != 0:
         out["inconclusive"].append("cannot build the escalator binary: " + p.stdout[-500:])
         return out
+    # the same main package with the verif tag: ESCALATOR_VERIF_DUMP_PROVIDER_CONFIG makes it print what
+    # setupNodeGroups + setupCloudProvider hand to the cloud provider for the given file
+    repo = os.environ.get("VERIF_REPO", "/repo")
+    dumppath = os.path.join(VERIF, "bin", "escalator-verif")
+    p = subprocess.run(["go", "build", "-tags", "verif", "-o", dumppath, "./cmd"], cwd=repo, env=goenv, stdout=subprocess.PIPE, stderr=subprocess.STDOUT, text=True)
+    have_dump = p.returncode == 0 and os.path.exists(os.path.join(repo, "cmd", "verif_hooks.go"))
+    if not have_dump:
+        out["inconclusive"].append("cannot build the provider-configuration dump (cmd/verif_hooks.go): " + p.stdout[-300:])
     env = {k: v for k, v in os.environ.items() if not k.startswith("KUBERNETES_")}
     for c in json.load(open(cases_path)):
         f = os.path.join(workdir, "gate_%s.yaml" % c["name"])
@@ -33,6 +41,38 @@ def run(workdir, goenv, log):
             continue
         text = r.stdout
         out["evaluations"] += 1
+        if c.get("provider") is not None and have_dump:
+            try:
+                d = subprocess.run([dumppath, "--nodegroups", f], env=dict(env, ESCALATOR_VERIF_DUMP_PROVIDER_CONFIG="1"), stdout=subprocess.PIPE, stderr=subprocess.STDOUT, text=True, timeout=60)
+                got = None
+                for ln in d.stdout.splitlines():
+                    if ln.startswith("VERIF-PROVIDER-CONFIG "):
+                        got = json.loads(ln[len("VERIF-PROVIDER-CONFIG "):])
+                want = c["provider"]
+
+                def norm(x):
+                    for g in x or []:
+                        if not g["AWSConfig"].get("InstanceTypeOverrides"):
+                            g["AWSConfig"]["InstanceTypeOverrides"] = None
+                    return x
+                sig = "provider-config:groups%d" % len(want)
+                out["cover"][sig] = out["cover"].get(sig, 0) + 1
+                if norm(got) != norm(want):
+                    diff = ""
+                    if got and len(got) == len(want):
+                        for a, b in zip(got, want):
+                            for k in set(a["AWSConfig"]) | set(b["AWSConfig"]):
+                                if a["AWSConfig"].get(k) != b["AWSConfig"].get(k):
+                                    diff = k
+                            for k in ("Name", "GroupID"):
+                                if a.get(k) != b.get(k):
+                                    diff = k
+                    out["violations"].append({"property": "C16", "key": "provider-config-mismatch:" + (diff or "shape"), "case": "gate:" + c["name"], "scan": 0,
+                                              "msg": "cmd/main.go builds the cloud provider with %s, the configuration file says %s" % (json.dumps(got)[:400], json.dumps(want)[:400]), "replay": f})
+            except subprocess.TimeoutExpired:
+                out["inconclusive"].append("provider-configuration dump did not exit on %s" % c["name"])
+            if c["name"].startswith("provider-"):
+                continue
         low = text.lower()
         rejected = "problems when validating" in low or "[fail]" in low
         passed = "[pass]" in low
